@@ -16,8 +16,7 @@ RULES["pg"] = ("one session = one seeded plan (composite problem 1/2||Mx-y||^2+g
                "step factor, accelerate, step kind, gamma, long run, K, log10 lam, sigma bucket, compressed action sequence)")
 RULES["stop"] = ("one session = one seeded plan (an Alg subclass or App on a small generated instance: PowerMethod, MaxEig, "
                  "GradientMethod, ConjugateGradient, PrimalDualHybridGradient, AltMin, AugmentedLagrangianMethod, ADMM, SDMM, "
-                 "NewtonsMethod, GerchbergSaxton, LinearLeastSquares x 4 solvers, L2ConstrainedMinimization, and in the thorough tier "
-                 "tiny MRI apps; max_iter 0..12, tol=0; a caller schedule over update/done/peek/read-resid, the canonical loop or "
+                 "NewtonsMethod, GerchbergSaxton, LinearLeastSquares x 4 solvers, L2ConstrainedMinimization, and tiny MRI apps; max_iter 0..12, tol=0; a caller schedule over update/done/peek/read-resid, the canonical loop or "
                  "App.run(); simulated clock with planned jumps and a simulated stderr with planned write faults) executed next to a "
                  "twin canonical run; non-trivial = at least one library call followed by an oracle evaluation; distinct = distinct "
                  "fingerprints of (kind, solver/app, field, n, m, max_iter, g, start, options, progress bar, schedule style, fault "
@@ -88,6 +87,7 @@ ASSUMPTIONS = {
         "Fejer monotonicity is checked in the M-norm pairing x before with u after the half-step (proximal-point form); constant steps only",
         "bounded convergence (2000 updates, within 1e-1 of the initial distance; worst observed 6e-4) only on the benign family (cond <= 5, m >= n)",
         "step-size arrays are exempt from the ledger when acceleration rescales them in place",
+        "family 'spread' (cond <= 5 core, columns scaled over e^+-1.5, Pock-Chambolle array steps, g = l2, primal acceleration): after 2000 updates within 2e-3 of the initial distance (worst observed on the unchanged tree 5e-6; an over-accelerating step rule stalls at ~1e-2)",
     ],
     "cg": [
         "dense float64 reference (Arnoldi + Galerkin solve) is exact to ~cond*eps",
@@ -95,4 +95,29 @@ ASSUMPTIONS = {
         "updates issued after iter >= max_iter are not judged (Alg objects are documented as run-once)",
         "sampling, not enumeration: a clean batch is evidence, not proof",
     ],
+}
+
+
+_REAL = ["sigpy (imported from the working tree under test)", "numpy", "scipy", "numba kernels", "PyWavelets"]
+COMPONENTS = {
+    "cg": {"real": _REAL + ["sigpy.alg.ConjugateGradient", "sigpy.linop.MatMul/Multiply/Identity as A and P"],
+           "simulated": ["caller program (seeded schedule of update/done/peek)", "A and P callbacks (recording proxies, buggify return styles, curvature faults)"],
+           "stub": [], "absent": ["clock", "stream", "RNG (not read on this path)", "MPI/CUDA"]},
+    "pg": {"real": _REAL + ["sigpy.alg.GradientMethod", "sigpy.alg.PrimalDualHybridGradient", "sigpy.prox objects", "sigpy.linop.MatMul"],
+           "simulated": ["caller program", "gradient / prox / operator callbacks (recording proxies, buggify return styles)",
+                         "process history (history configuration: fresh interpreter per session, no canonical JIT warm-up)"],
+           "stub": [], "absent": ["clock", "stream", "MPI/CUDA"]},
+    "stop": {"real": _REAL + ["every sigpy.alg.Alg subclass", "sigpy.app.App/MaxEig/LinearLeastSquares/L2ConstrainedMinimization", "sigpy.mri.app recon apps", "tqdm progress-bar code"],
+             "simulated": ["caller program (interleavings of update/done/peek, canonical loop, run())", "wall clock (sigpy.app.time, tqdm.std.time)", "stderr stream with write faults", "numpy global RNG (seeded per session)"],
+             "stub": ["closures handed to AltMin / AugmentedLagrangianMethod / ADMM / NewtonsMethod are harness code"],
+             "absent": ["tqdm monitor thread (disabled: monitor_interval = 0)", "MPI/CUDA"]},
+    "rng": {"real": _REAL + ["sigpy.mri.samp.poisson and its sampler (JIT-compiled and interpreted)", "sigpy.util.randn", "sigpy.app.MaxEig"],
+            "simulated": ["history of numpy global-RNG users", "numpy global RNG state", "numba's private generator (seeded per session)", "call budget on the inner sampler"],
+            "stub": [], "absent": ["clock", "stream", "MPI/CUDA"]},
+    "ops": {"real": _REAL + ["all CPU classes of sigpy.linop", "sigpy.mri.linop factories", "sigpy.mri.rf.linop.PtxSpatialExplicit", "sigpy.prox", "public array functions of sigpy and sigpy.mri.util"],
+            "simulated": ["caller program (build / take .H,.N / apply / re-apply / probe / prox / function actions)", "buffer pool with layouts and aliasing kinds"],
+            "stub": [], "absent": ["clock", "stream", "callbacks", "MPI/CUDA (ToDevice, AllReduce not built)"]},
+    "lls": {"real": _REAL + ["sigpy.app.LinearLeastSquares with all four solvers", "sigpy.app.MaxEig (default step sizes)", "tqdm progress-bar code"],
+            "simulated": ["caller program", "numpy global RNG history", "wall clock", "stderr stream with write faults"],
+            "stub": [], "absent": ["tqdm monitor thread (disabled)", "MPI/CUDA"]},
 }
